@@ -1,7 +1,8 @@
 """C02 - interval transfer functions are sound (IntervalDomain::bin_op/un_op/cast/subpiece)."""
 import core
 from core import Report
-from common import TRUSTED, first_with
+import strict_canary
+from common import TRUSTED
 
 TRACE_SPEC = "trace/T_C02.tla"
 
@@ -28,16 +29,18 @@ def check(seed, tier):
     meta = core.gen("C02", seed, tier, shards=8 if tier == "quick" else 16)
     core.validate_traces(rep, TRACE_SPEC, meta["files"], parallel=8, timeout=5400)
 
+    def eligible(e):
+        # an IntAdd result with more than one member must contain xs+ys and xe+ye, two different values
+        return (e["kind"] == "bin" and e["op"] == "IntAdd" and e["panic"] == "" and e["cls"] == "" and e["x"]["w"] == 1
+                and e["x"]["s"] != e["x"]["e"] and e["r"]["s"] != e["r"]["e"])
+
     def mutate(evs):
-        # shrink: an IntAdd result with more than one member must contain xs+ys and xe+ye (different
-        # values); replacing it by the singleton {start} certainly drops a reachable sum
-        i = first_with(evs, lambda e: e["kind"] == "bin" and e["op"] == "IntAdd" and e["panic"] == "" and e["x"]["s"] != e["x"]["e"]
-                       and e["r"]["s"] != e["r"]["e"], start=0)
-        if i is not None:
-            evs[i]["r"]["e"] = list(evs[i]["r"]["s"])
-            evs[i]["r"]["st"] = [0] * 8
+        # shrink the recorded result to the singleton {start}: one of the two sums is certainly lost
+        i = min(3, len(evs) - 1)
+        evs[i]["r"]["e"] = list(evs[i]["r"]["s"])
+        evs[i]["r"]["st"] = [0] * 8
         return i
-    core.canary(rep, TRACE_SPEC, first_file_with(meta["files"], '"op":"IntAdd"'), mutate, n=400)
+    strict_canary.run(rep, TRACE_SPEC, meta["files"][0], eligible, mutate, n=12)
     rep.traces, rep.events = meta["cases"], meta["events"]
     return rep.finish("model_checking", {
         "distinct_nontrivial": meta["distinct_nontrivial"],
@@ -51,12 +54,3 @@ def check(seed, tier):
         "all 26 integer binary operations in both operand orders, Piece with mixed widths, shifts with 1-byte and same-width amounts, "
         "Int2Comp/IntNegate/BoolNegate, IntZExt/IntSExt up to 16 bytes, PopCount/LzCount, all (low,size) subpieces; float operations only for width/shape",
         "input class: well-formed intervals with widening hints the public API can produce (lower hint < start, upper hint > end)"])
-
-
-def first_file_with(files, needle):
-    for f in files:
-        with open(f) as fh:
-            head = fh.read(400000)
-        if needle in head:
-            return f
-    return files[0]
